@@ -45,7 +45,7 @@ CTransactionRef build_probe_tx(ChainSim& sim, const Probe& p, CAmount fee_hint, 
 } // namespace
 
 VERIF_TARGET(c05_timelocks, nullptr, 64, 900,
-             "a regtest node (104-block base; CSV/BIP113 active from height 1, 118, 124 or 130) extended by 6-18 blocks with random timestamps in (MTP, MTP+3000] and "
+             "a regtest node (104-block base; CSV/BIP113 active from height 1, 118, 124 or 130) extended by 6-18 blocks with random timestamps in (MTP, MTP+20000] and "
              "funding transactions; then up to 12 probes: a block on the tip holding one transaction with nLockTime in {0, h-1, h, h+1, 499999999, 500000000, "
              "MTP-1, MTP, MTP+1, blocktime-1..+1, max}, per-input nSequence in {FINAL, FINAL-1, disable flag, height-type k-1/k/k+1 around the coin's depth, "
              "time-type at the 512 s step around MTP(tip)-MTP(block before the coin), junk in undefined bits, random}, version 0/1/2/3/max, spending funded "
@@ -67,9 +67,11 @@ VERIF_TARGET(c05_timelocks, nullptr, 64, 900,
 
     auto rand_time = [&](const uint256& prev) -> uint32_t {
         int64_t m = sim.ledger.MedianTimePast(prev);
-        unsigned mode = s.range<unsigned>(0, 4);
+        // jumps above 512 s matter: then consecutive blocks have MTPs more than one BIP68 time step apart, so measuring a time lock from the
+        // wrong block (coin's block instead of the one before) flips verdicts at the boundary
+        unsigned mode = s.range<unsigned>(0, 6);
         int64_t d = mode == 0 ? 0 : mode == 1 ? s.range<int64_t>(0, 10) : mode == 2 ? s.range<int64_t>(0, 700) : mode == 3 ? s.range<int64_t>(0, 3000)
-                                                                                             : int64_t(sim.ledger.At(prev).time) - m + s.range<int64_t>(0, 600);
+                  : mode == 4 ? int64_t(sim.ledger.At(prev).time) - m + s.range<int64_t>(0, 600) : mode == 5 ? s.range<int64_t>(500, 5000) : s.range<int64_t>(0, 20000);
         if (d < 0) d = 0;
         return uint32_t(m + 1 + d);
     };
@@ -112,7 +114,7 @@ VERIF_TARGET(c05_timelocks, nullptr, 64, 900,
     {
         unsigned k = s.range<unsigned>(6, 18); // >= 6 so that the median of the last 11 timestamps leaves the 1-second-spaced base chain
         uint256 tip = base.back();
-        for (unsigned i = 0; i < k; ++i) tip = grow(tip, i < 3 || s.chance(64), i + 1);
+        for (unsigned i = 0; i < k; ++i) tip = grow(tip, i < 3 || s.chance(140), i + 1); // funding also late, where MTP moves in big steps
         VCHECK(sim.TipHash() == tip, "c05.valid-block-rejected", "setup chain is not the active chain");
         st.note("csv@", csv_h, " setup blocks=", k, " tip h=", sim.TipHeight(), " mtp=", sim.ledger.MedianTimePast(tip));
     }
@@ -145,7 +147,7 @@ VERIF_TARGET(c05_timelocks, nullptr, 64, 900,
         }
         if (kind == 8) {
             // ---------------- the chain grows by one block (re-evaluation of saved probes happens at the new height / MTP)
-            grow(tip, s.chance(64), 2000 + op);
+            grow(tip, s.chance(128), 2000 + op);
             st.mix(uint64_t(8));
             st.note("grow to h=", H);
             continue;
